@@ -254,7 +254,7 @@ def run_case(case):
                 import shutil
                 croot = os.path.join(scr, "copy-" + route)
                 os.makedirs(croot)
-                shutil.copytree(os.path.join(scr, "src", tree["name"]), os.path.join(croot, tree["name"]))
+                shutil.copytree(os.path.join(scr, "src", tree["name"]), os.path.join(croot, tree["name"]), symlinks=True)
                 route_content = os.path.join(croot, tree["name"])
                 odir = route_content
                 out = os.path.join(route_content, "res-inside.torrent")
